@@ -64,7 +64,7 @@ def rand_name(rng, i):
 def corrupt(rng, data):
     """One structured corruption of a FASTA byte stream; returns (kind, bytes)."""
     data = bytearray(data)
-    kind = rng.choice(["badsym", "dropbyte", "dupbyte", "truncate", "nohdr", "emptyhdr", "empty", "randbytes", "longer"])
+    kind = rng.choice(["badsym", "dropbyte", "dupbyte", "truncate", "nohdr", "emptyhdr", "empty", "randbytes", "longer", "emptyseq", "emptyseq"])
     if kind == "badsym" and data:
         pos = rng.randrange(len(data))
         data[pos] = rng.choice(b"EFIJLOPQUXZ!*1. ")
@@ -91,4 +91,16 @@ def corrupt(rng, data):
         data = bytearray(rng.choices(b">ACGTN-\n\r xq", k=rng.randint(0, 30)))
     elif kind == "longer":
         data += b"A"
+    elif kind == "emptyseq":
+        # remove the sequence lines of one record (first, middle or last): a header followed directly by the next header
+        lines = bytes(data).split(b"\n")
+        hdrs = [i for i, l in enumerate(lines) if l.startswith(b">")]
+        if hdrs:
+            h = rng.choice([hdrs[0], hdrs[len(hdrs) // 2], hdrs[-1]])
+            j = h + 1
+            while j < len(lines) and not lines[j].startswith(b">"):
+                j += 1
+            keep_blank = [b""] if rng.random() < 0.3 else []
+            lines[h + 1:j] = keep_blank if j < len(lines) else keep_blank + [b""]
+            data = bytearray(b"\n".join(lines))
     return kind, bytes(data)
